@@ -203,7 +203,8 @@ def public_methods():
     for mod, cls in (("liquid.utils.lru_cache", "LRUCache"), ("liquid.utils.lru_cache", "ThreadSafeLRUCache")):
         node = load.get_module(mod).classes[cls]
         for stmt in node.body:
-            if isinstance(stmt, ast.FunctionDef) and stmt.name != "__init__":
+            # the public interface: private helpers (`_name`) run inside a public method's locked region
+            if isinstance(stmt, ast.FunctionDef) and stmt.name != "__init__" and (not stmt.name.startswith("_") or (stmt.name.startswith("__") and stmt.name.endswith("__"))):
                 names.add(stmt.name)
     return sorted(names)
 
@@ -237,6 +238,42 @@ def add_lock_discipline(meth):
 
 for _m in public_methods():
     add_lock_discipline(_m)
+
+from pyvc import flow  # noqa: E402
+from pyvc.run import structural  # noqa: E402
+
+
+@structural("C24", "no-lock-across-yield")
+def no_lock_across_yield():
+    """a generator that yields inside `with self._lock` keeps the (non-reentrant) lock while its
+    caller runs: the next cache operation of any thread -- or of the same thread -- blocks"""
+    obs = []
+    cls = load.get_module("liquid.utils.lru_cache").classes["ThreadSafeLRUCache"]
+    for fn in [x for x in cls.body if isinstance(x, (ast.FunctionDef, ast.AsyncFunctionDef))]:
+        held_yields = []
+        for w in [x for x in ast.walk(fn) if isinstance(x, (ast.With, ast.AsyncWith))]:
+            if any("_lock" in flow.dotted(it.context_expr) for it in w.items):
+                held_yields += [y.lineno for y in ast.walk(w) if isinstance(y, (ast.Yield, ast.YieldFrom))]
+        obs.append(flow.ob(f"ThreadSafeLRUCache.{fn.name}:does-not-yield-while-holding-the-lock", not held_yields, f"yield at lines {held_yields}", replay_schema="code", replay_extra={"code": REPLAY_YIELD}))
+    return obs
+
+
+REPLAY_YIELD = r'''
+def run(m):
+    import threading
+    from liquid.utils import ThreadSafeLRUCache
+    c = ThreadSafeLRUCache(4)
+    c["a"] = 1; c["b"] = 2
+    done = []
+    def work():
+        for k in c.keys():
+            c.get(k)
+        done.append(True)
+    t = threading.Thread(target=work, daemon=True)
+    t.start(); t.join(5)
+    return {"violated": not done, "observed": "iteration with lookups finished" if done else "deadlock: keys() still holds the lock"}
+'''
+
 
 not_covered("C24", "exploring thread schedules (outside this technique; lock discipline + linearizability argument stands in)",
             "cardinality link between the abstract size n and the set of present keys beyond n==0 <=> empty (n is maintained by the OrderedDict model)")
